@@ -37,7 +37,7 @@ Step(e) ==
          /\ e.r = m.nexp
          /\ m' = [m EXCEPT !.nexp = @ + 1, !.n = e.n, !.drops = @ + (IF e.dropped THEN 1 ELSE 0)]
          /\ Mark(e.dropped /\ m.st # "READY", "C38_DropWhileNotReady", l)
-         /\ Drift(m.st = "READY" /\ e.n > 0 /\ e.dropped # Drop(m.num, m.den, e.r), "C38_DropDiffersFromReference", l)
+         /\ Drift(m.st = "READY" /\ e.n > 0 /\ (e.n # RandRange(DropWeights(m.num, m.den)) \/ e.dropped # Drop(m.num, m.den, e.r)), "C38_DropDiffersFromReference", l)
     [] e.ev = "dropend" ->
          /\ (m.n = 0 \/ m.nexp = m.n)
          /\ Mark(m.st = "READY" /\ ~DropProp(m.num, m.den, m.drops, Total), "C38_DropExact", l)
